@@ -638,3 +638,86 @@ def canaries_default(programs):
         Q.note = "CANARY (oracle designates another variant) of " + P.pid
         out.append(Q)
     return out
+
+
+# ---------------------------------------------------------------------------------
+# C09
+def deref_fields(kind, n, dm, dmm, with_mut, ty, form, names=NAMES):
+    fs = []
+    for i in range(n):
+        attrs = []
+        both = (i == dm and i == dmm and with_mut and n > 1)
+        if n > 1 and i == dm:
+            attrs.append("Deref")
+        if n > 1 and with_mut and i == dmm:
+            attrs.append("DerefMut")
+        f = Field(names[i] if kind == "named" else None, ty, attrs=attrs,
+                  deref={"mark": i == dm}, deref_mut={"mark": i == dmm})
+        if both and form % 2:
+            f.sem["_split_attrs"] = True
+        fs.append(f)
+    return fs
+
+
+def c09(tier, seed):
+    rnd = random.Random(seed)
+    c = Counter()
+    out = []
+    form = 0
+    maxn = 3 if tier == "quick" else 4
+    for shape in ("named", "tuple"):
+        for n in range(1, maxn + 1):
+            for dm in range(n):
+                for dmm in list(range(n)) + [None]:
+                    form += 1
+                    with_mut = dmm is not None
+                    names = HOSTILE if form % 4 == 0 else NAMES
+                    fs = deref_fields(shape, n, dm, dmm if with_mut else -1, with_mut, "T0", form, names)
+                    traits = ["Deref"] + (["DerefMut"] if with_mut else [])
+                    if form % 3 == 0:
+                        traits.reverse()
+                    out.append(Program(c.pid(), "struct", "S", [Variant(None, shape, fs)], traits, generics=["T0"], inst={"T0": "u8"},
+                                       focus=set(traits), note="struct %s n=%d deref@%d deref_mut@%s" % (shape, n, dm, dmm)))
+    # reference-typed designated field: Target is the referent
+    for n in (1, 2, 3):
+        for dm in range(n):
+            form += 1
+            shape = "named" if form % 2 else "tuple"
+            fs = []
+            for i in range(n):
+                ty = "&'static u8" if i == dm else ("u8" if i % 2 else "&'static u8")
+                fs.append(Field(NAMES[i] if shape == "named" else None, ty, attrs=["Deref"] if (n > 1 and i == dm) else [], deref={"mark": i == dm}))
+            out.append(Program(c.pid(), "struct", "S", [Variant(None, shape, fs)], ["Deref"], focus={"Deref"},
+                               note="struct %s n=%d reference field deref@%d" % (shape, n, dm)))
+    # enums
+    shapes = [("tuple", 1), ("named", 1), ("tuple", 2), ("named", 2), ("tuple", 3), ("named", 3)]
+    combos = [(a,) for a in range(6)] + [(a, b) for a in range(6) for b in range(6) if (a + b) % 2 == 1][:12] + [(0, 3, 4), (2, 2, 2), (5, 1, 2), (3, 0, 5)]
+    if tier != "quick":
+        combos += [tuple(rnd.randrange(6) for _ in range(rnd.choice((2, 3, 4)))) for _ in range(60)]
+    for ci, combo in enumerate(combos):
+        for with_mut in (False, True):
+            form += 1
+            variants = []
+            for vi, si in enumerate(combo):
+                kind, n = shapes[si]
+                dm = (ci + vi) % n
+                dmm = (ci + vi + 1 + form) % n
+                variants.append(Variant("V%d" % vi, kind, deref_fields(kind, n, dm, dmm if with_mut else -1, with_mut, "T0", form + vi)))
+            traits = ["Deref"] + (["DerefMut"] if with_mut else [])
+            out.append(Program(c.pid(), "enum", "E", variants, traits, generics=["T0"], inst={"T0": "u8"}, focus=set(traits),
+                               note="enum %s mut=%s" % ("/".join("%s%d" % shapes[s] for s in combo), with_mut)))
+    return out
+
+
+def canaries_deref(programs):
+    out = []
+    picks = [p for p in programs if p.kind == "struct" and len(p.variants[0].fields) >= 2 and "DerefMut" in p.focus]
+    for P in picks[:1] + picks[-1:]:
+        Q = P.clone(); Q.pid = P.pid + "_canary"; Q.canary_of = P.pid
+        fs = Q.variants[0].fields
+        cur = [f for f in fs if f.s("deref", "mark")][0]
+        oth = [f for f in fs if f is not cur][0]
+        cur.sem["deref"] = {"mark": False}; oth.sem["deref"] = {"mark": True}
+        Q.note = "CANARY (oracle designates another Deref field) of " + P.pid
+        out.append(Q)
+    return out
